@@ -161,6 +161,28 @@ def from_regex(pattern: str, flags: int = 0) -> NFA:
     return nfa
 
 
+def match_language(pattern: str, flags: int, method: str) -> NFA:
+    """The set of whole strings on which `re.compile(pattern, flags).<method>(s)` succeeds, for method in
+    fullmatch / match.  `fullmatch` ignores the anchors; `match` without a trailing anchor accepts every extension of
+    a matching prefix, with a trailing `$` accepts the match and the match followed by one line feed (Python's `$`),
+    and with a trailing `\\Z` accepts exactly the match."""
+    t = sp.parse(pattern, flags)
+    items = list(t)
+    body = from_regex(pattern, flags)
+    if method == "fullmatch":
+        return body
+    if method != "match":
+        raise NotImplementedError(f"regex method {method}")
+    if flags & re.MULTILINE:
+        raise NotImplementedError("MULTILINE match language")
+    last = items[-1] if items else None
+    if last is not None and last[0] == sc.AT and last[1] == sc.AT_END_STRING:
+        return body
+    if last is not None and last[0] == sc.AT and last[1] == sc.AT_END:
+        return union(body, concat(body, from_classes([frozenset({10})])))
+    return concat(body, from_classes([ALL], star_last=True))
+
+
 def from_classes(classes: list[frozenset[int]], star_last: bool = False) -> NFA:
     """Language c0 c1 ... (last class starred if star_last)."""
     nfa = NFA()
